@@ -259,4 +259,167 @@ example : SpecC20.specHolds world base [gIo ⟨.implements, sIoR⟩] (.loaded [s
 example : loadFile false world base [gIo ⟨.hasMethod, sIoR ++ [dot] ++ [78]⟩] = .ok ([base], [.failed .noMethod]) := by decide
 example : loadFile true world base [gIo ⟨.hasMethod, sIoR ++ [dot] ++ [78]⟩] = .ok ([base], [.loaded [[4]]]) := by decide
 
+/-! ## fully-qualified names: the package comes from the analysed program's own import graph -/
+
+section Deps
+open SpecC20
+
+theorem findDep_sound (g : DGraph) (path : Bytes) : ∀ (fuel i d : Nat), findDep g path (fuel + 1) i = some d →
+    (∃ p, g[d]? = some p ∧ p.path = path) ∧ ReachN g fuel i d := by
+  intro fuel
+  induction fuel with
+  | zero =>
+    intro i d h
+    unfold findDep at h
+    split at h
+    · simp at h
+    · rename_i p hp
+      split at h
+      · rename_i hpath
+        have : i = d := by simpa using h
+        subst this
+        exact ⟨⟨p, hp, by simpa using hpath⟩, ReachN.here _ _ p hp⟩
+      · obtain ⟨j, _, hf⟩ := List.exists_of_findSome?_eq_some h
+        simp [findDep] at hf
+  | succ n ih =>
+    intro i d h
+    unfold findDep at h
+    split at h
+    · simp at h
+    · rename_i p hp
+      split at h
+      · rename_i hpath
+        have : i = d := by simpa using h
+        subst this
+        exact ⟨⟨p, hp, by simpa using hpath⟩, ReachN.here _ _ p hp⟩
+      · obtain ⟨j, hj, hf⟩ := List.exists_of_findSome?_eq_some h
+        split at hf
+        · rename_i d' hd'
+          split at hf
+          · have : d' = d := by simpa using hf
+            subst this
+            obtain ⟨hp', hr⟩ := ih j d' hd'
+            exact ⟨hp', ReachN.step _ _ _ _ p hp hj hr⟩
+          · simp at hf
+        · simp at hf
+
+/-- every package complete (what a host that type-checks dependencies from source delivers): a package of that
+path within `fuel` import edges is found — indirect dependencies included -/
+theorem findDep_complete (g : DGraph) (path : Bytes) (hc : ∀ p ∈ g, p.complete = true) :
+    ∀ (fuel i k : Nat), ReachN g fuel i k → (∃ p, g[k]? = some p ∧ p.path = path) →
+      ∃ d, findDep g path (fuel + 1) i = some d := by
+  intro fuel
+  induction fuel with
+  | zero =>
+    intro i k hr hk
+    cases hr with
+    | here _ _ p hp =>
+      obtain ⟨p', hp', hpath⟩ := hk
+      rw [hp] at hp'
+      cases hp'
+      exact ⟨i, by simp [findDep, hp, hpath]⟩
+  | succ n ih =>
+    intro i k hr hk
+    cases hr with
+    | here _ _ p hp =>
+      obtain ⟨p', hp', hpath⟩ := hk
+      rw [hp] at hp'
+      cases hp'
+      exact ⟨i, by simp [findDep, hp, hpath]⟩
+    | step _ _ j _ p hp hj hr' =>
+      unfold findDep
+      simp only [hp]
+      by_cases hpath : (p.path == path) = true
+      · exact ⟨i, by simp [hpath]⟩
+      · simp only [hpath]
+        obtain ⟨d, hd⟩ := ih j k hr' hk
+        have hcomp : g.isComplete d = true := by
+          obtain ⟨⟨pd, hpd, _⟩, _⟩ := findDep_sound g path n j d hd
+          have hmem : pd ∈ g := List.mem_of_getElem? hpd
+          simp [DGraph.isComplete, hpd, hc pd hmem]
+        have hne : (p.imports.findSome? fun j =>
+            match findDep g path (n + 1) j with
+            | some d => if g.isComplete d then some d else none
+            | none => none) ≠ none := by
+          intro hnone
+          have := (List.findSome?_eq_none_iff.mp hnone) j hj
+          simp [hd, hcomp] at this
+        cases hfs : (p.imports.findSome? fun j =>
+            match findDep g path (n + 1) j with
+            | some d => if g.isComplete d then some d else none
+            | none => none) with
+        | none => exact absurd hfs hne
+        | some d' => exact ⟨d', rfl⟩
+
+theorem mem_reach_of_ReachN (g : DGraph) : ∀ (n i k : Nat), ReachN g n i k → k ∈ reach g n i := by
+  intro n i k h
+  induction h with
+  | here n i p hp =>
+    cases n with
+    | zero => simp [reach, hp]
+    | succ m => simp [reach, hp]
+  | step n i j k p hp hj _ ih =>
+    simp only [reach, hp]
+    exact List.mem_cons_of_mem _ (List.mem_flatMap.mpr ⟨j, hj, ih⟩)
+
+theorem ReachN_of_mem_reach (g : DGraph) : ∀ (n i k : Nat), k ∈ reach g n i → ReachN g n i k := by
+  intro n
+  induction n with
+  | zero =>
+    intro i k h
+    unfold reach at h
+    cases hg : g[i]? with
+    | none => simp [hg] at h
+    | some p =>
+      simp [hg] at h
+      subst h
+      exact ReachN.here _ _ p hg
+  | succ m ih =>
+    intro i k h
+    unfold reach at h
+    cases hg : g[i]? with
+    | none => simp [hg] at h
+    | some p =>
+      simp only [hg, List.mem_cons, List.mem_flatMap] at h
+      rcases h with h | ⟨j, hj, hk⟩
+      · subst h
+        exact ReachN.here _ _ p hg
+      · exact ReachN.step _ _ _ _ p hg hj (ih j k hk)
+
+/-- **dependency_first.**  With every package of the analysed program complete, `findTypeNoCache` takes the package of a
+fully-qualified name from the program's own import graph whenever a package of that path is within `g.length` import
+edges of the analysed package (direct or indirect), and falls back to the engine's importer only otherwise. -/
+theorem dependency_first (g : DGraph) (hc : ∀ p ∈ g, p.complete = true) (root : Nat) (path : Bytes) :
+    depHolds g root path (pkgSource g root path) = true := by
+  unfold pkgSource depHolds
+  cases hf : findDep g path g.length.succ root with
+  | some d =>
+    obtain ⟨⟨p, hp, hpath⟩, hr⟩ := findDep_sound g path g.length root d hf
+    have hmem := mem_reach_of_ReachN g _ _ _ hr
+    have hpc : p.complete = true := hc p (List.mem_of_getElem? hp)
+    simp only [List.contains_iff_mem, List.mem_filter]
+    exact ⟨hmem, by simp [hp, hpath, hpc]⟩
+  | none =>
+    simp only [List.isEmpty_iff, List.filter_eq_nil_iff]
+    intro d hd hpred
+    have hr := ReachN_of_mem_reach g _ _ _ hd
+    cases hg : g[d]? with
+    | none => simp [hg] at hpred
+    | some p =>
+      simp only [hg, Bool.and_eq_true] at hpred
+      obtain ⟨d', hd'⟩ := findDep_complete g path hc g.length root d hr ⟨p, hg, by simpa using hpred.1⟩
+      rw [hf] at hd'
+      cases hd'
+
+/-- a → b → c: the indirect dependency is found, and the statement rejects the importer fallback for it -/
+def chain : DGraph := [⟨[97], true, [1]⟩, ⟨[98], true, [2]⟩, ⟨[99], true, []⟩]
+example : pkgSource chain 0 [99] = .graph 2 := by decide
+example : depHolds chain 0 [99] (.graph 2) = true ∧ depHolds chain 0 [99] .importer = false := by decide
+example : depHolds chain 0 [100] .importer = true := by decide
+/-- the hypothesis matters: an incomplete indirect dependency is skipped (the code's `dep.Complete()`), the statement
+then prescribes nothing but the importer -/
+example : pkgSource [⟨[97], true, [1]⟩, ⟨[98], true, [2]⟩, ⟨[99], false, []⟩] 0 [99] = .importer := by decide
+
+end Deps
+
 end C20
